@@ -257,7 +257,28 @@ func runC09(c *Ctx) []Obligation {
 		{Prop: P, ID: "prevctx.store-is-lazy-version", Fn: "(types.Context).PrevCtx",
 			Target: CallTo(`^types\.NewContext\(`).Except(`^types\.NewContext\(assert<types\.MultiStore>\(invoke types\.CommitMultiStore\.LoadLazyVersion\(assert<types\.CommitMultiStore>\(c\.ms\), height\)#0\), `),
 			Why:    "a previous-height context is built only over LoadLazyVersion(height)"},
+		// the tree handed out for a requested version is rooted at that version's SAVED root, read from
+		// the node DB; never at the working tree's in-memory root, which already carries the next block's writes
+		{Prop: P, ID: "lazyload.root-is-saved-root", Fn: "(*store/iavl.MutableTree).LazyLoadVersion",
+			Target: StoreTo(`^var:complit\.root$`).ExceptVal(`^\(\*store/iavl\.nodeDB\)\.GetNode\(tree\.ndb, \(\*store/iavl\.nodeDB\)\.getRoot\(tree\.ndb, phi:targetVersion\)#0\)$`),
+			Why: "a lazily loaded version is rooted at the root saved for that version"},
+		{Prop: P, ID: "lazyload.version-is-requested", Fn: "(*store/iavl.MutableTree).LazyLoadVersion",
+			Target: StoreTo(`^var:complit\.version$`).ExceptVal(`^phi:targetVersion$`), Why: "and labelled with that version"},
+		{Prop: P, ID: "lazyload.missing-version-fails", Fn: "(*store/iavl.MutableTree).LazyLoadVersion", Assume: []Lit{T(`^lt\(0, \(\*store/iavl\.nodeDB\)\.getLatestVersion\(tree\.ndb\)\)$`), F(`^nonnil\(\(\*store/iavl\.nodeDB\)\.getRoot\(tree\.ndb, phi:targetVersion\)#0\)$`)},
+			Target: Success(), Why: "a version without a saved root is not served"},
+		{Prop: P, ID: "getimmutable.root-is-saved-root", Fn: "(*store/iavl.MutableTree).GetImmutable",
+			Target: StoreTo(`^var:complit\.root$`).ExceptVal(`^\(\*store/iavl\.nodeDB\)\.GetNode\(tree\.ndb, \(\*store/iavl\.nodeDB\)\.getRoot\(tree\.ndb, version\)#0\)$`),
+			Why: "an immutable view of a version is rooted at the root saved for that version"},
+		{Prop: P, ID: "getimmutable.version-is-requested", Fn: "(*store/iavl.MutableTree).GetImmutable",
+			Target: StoreTo(`^var:complit\.version$`).ExceptVal(`^version$`), Why: "and labelled with that version"},
+		{Prop: P, ID: "getimmutable.missing-version-fails", Fn: "(*store/iavl.MutableTree).GetImmutable", Assume: []Lit{F(`^nonnil\(\(\*store/iavl\.nodeDB\)\.getRoot\(tree\.ndb, version\)#0\)$`)},
+			Target: Success(), Why: "a version without a saved root is not served"},
 	})...)
+	out = append(out,
+		c.fieldTable(P, "tree-root.writers", "store/iavl", "ImmutableTree", "root", false,
+			[]string{`\(\*store/iavl\.MutableTree\)\.(Set|set|Remove|remove|Rollback|LoadVersion|LoadVersionForOverwriting|LazyLoadVersion|GetImmutable|SaveVersion)`, `\(\*store/iavl\.ImmutableTree\)\.clone`, `store/iavl\.NewMutableTree(WithOpts)?`, `store/iavl\.NewImmutableTree(WithOpts)?`},
+			"a tree's root is replaced only by the mutating operations of the working tree, by loading a saved version, and by cloning"),
+	)
 	return out
 }
 
